@@ -202,6 +202,8 @@ class Polyhedron(Shape3D):
             scale (float):
                 Scale factor.
         """
+        if not scale > 0:
+            raise ValueError("Size-like properties can only be set to positive values.")
         self._vertices *= scale
         self._equations[:, 3] *= scale
 
